@@ -130,6 +130,16 @@ def cli_sample(bins, pid, tier, seed):
                 t["uses"] = [rng.choice(others) + rng.choice(["", "/src.txt", "/", "/."]) for _ in range(min(k, len(others)))]
             ts.append(t)
         rng.shuffle(ts)
+        if i % 4 == 3:
+            # one target is declared with a trailing slash, and the entries that name it spell it the same way
+            flat = [t for t in ts if "/" not in t["path"] and not any(o["path"].startswith(t["path"] + "/") for o in ts)]
+            if flat:
+                sl = rng.choice(flat)["path"]
+                for t in ts:
+                    if t["path"] == sl:
+                        t["path"] = sl + "/"
+                    if t.get("uses"):
+                        t["uses"] = [sl + "/" if u in (sl, sl + "/") else u for u in t["uses"]]
         fx = fixture.Fixture(bins, ts)
         a_recs, r_recs = [], []
         try:
